@@ -117,7 +117,10 @@ func (backupManager *BackupManager) DoRsyncBackup() error {
 		return err
 	}
 
-	cmd := exec.Command("rsync", "-avz", "--delete", backupManager.backupSourceLocation, backupManager.backupLocation)
+	// --checksum: badger writes its memtable and value log through memory maps into files of a fixed, preallocated
+	// size, which changes neither size nor (reliably) modification time. rsync's default quick check would skip
+	// those files on every run after the first, and the copy would miss everything written since.
+	cmd := exec.Command("rsync", "-avz", "--checksum", "--delete", backupManager.backupSourceLocation, backupManager.backupLocation)
 	err = cmd.Run()
 	return err
 }
